@@ -28,6 +28,16 @@ var propPkgs = map[string][]string{
 	"C03": {"./internal/query"},
 	"C02": {"./internal/index"},
 	"C11": {"./internal/index/manager"},
+	"C06": {"./internal/index/manager"},
+}
+
+// propLevel: the evidence level, equal to MANIFEST level_claimed.category. C02 is mostly a bounded
+// stand-in around one proved filter, so it is not claimed at proof level.
+func propLevel(prop string) string {
+	if prop == "C02" || prop == "C06" {
+		return "other"
+	}
+	return "proof"
 }
 
 type Finding struct {
@@ -344,7 +354,7 @@ func cmdCheck(args []string) {
 		"explanation":              "every obligation is generated from /repo's current working tree on this run; an obligation counts as discharged only if every path instance is unsat in at least one solver; cover:* obligations are vacuity probes that must not be unsat",
 	}
 	ev := map[string]any{
-		"property_id": prop, "tier": *tier, "seed": seed, "level": "proof",
+		"property_id": prop, "tier": *tier, "seed": seed, "level": propLevel(prop),
 		"coverage": cov, "assumptions": assumptions, "wall_s": wall, "violations": len(violations),
 	}
 	os.MkdirAll(filepath.Join(verifRoot, "evidence"), 0o755)
